@@ -115,7 +115,9 @@ Inductive bop :=
 | BWriteString (h off : Z) (bs : list byte)
 | BFind (h start stop needle : Z)
 | BReverse (h off len : Z)
-| BSwap (h i j : Z).
+| BSwap (h i j : Z)
+| BNonInt.   (* any std.bytes call with a non-int where a handle / offset / length / integer value is required,
+               a non-number as a float value, a non-string as a string: get_handle / get_int / get_string fail *)
 
 Inductive bres := BOkInt (z : Z) | BOkUnit | BOkWord (w : N) | BOkStr (bs : list byte) | BErr
 | BBad.   (* never returned by b_step: the specification's answer to a result it does not allow *)
@@ -332,6 +334,7 @@ Definition b_step (s : bstate) (o : bop) : bstate * bres :=
           | _, _ => (s, BErr)
           end
       end
+  | BNonInt => (s, BErr)
   end.
 
 (* ------------------------------------------------------------------------------------------
@@ -507,6 +510,7 @@ Definition bspec_step (m : smap) (o : bop) (hint : bres) : smap * bres :=
           | _, _ => (m, BErr)
           end
       end
+  | BNonInt => (m, BErr)
   end.
 
 Fixpoint bspec_run (m : smap) (os : list bop) (hints : list bres) : smap * list bres :=
